@@ -42,7 +42,10 @@ def showOut : Out → String
   | .rej w => "rej " ++ w
   | .dump s =>
     s!"ok st mask={s.mask} time={s.time} cd={s.chswcd} {showNet "net" s.net} wss={toHex [s.wssLast.1, s.wssLast.2]} " ++
-    s!"rep={s.wssRep} wt={s.wssTime} asp={showAspect s.aspect} src={s.aspectSource} pid={showPid s.vpsPid}"
+    s!"rep={s.wssRep} wt={s.wssTime} asp={showAspect s.aspect} src={s.aspectSource} pid={showPid s.vpsPid}" ++
+    -- vbi->cni_cycle[] / vbi->cni_announced[] exist in the source only in the per-carrier shape (F11 repaired)
+    (if cfg0.perCarrier then
+      s!" deb={s.deb.cycVps}:{s.deb.cyc8301}:{s.deb.cyc8302}:{s.deb.annVps}:{s.deb.ann8301}:{s.deb.ann8302}" else "")
 
 def hexN (s : String) (n : Nat) : Option (List Nat) :=
   match parseHex s with
